@@ -1,8 +1,8 @@
-(* C05 - in-flight operations never share a message id; ids stay within 1..2^31-1. Pinned statements only. Allocator: for EVERY counter position and in-use set (not full), next_msgid returns an id in 1..MAX that is not in use and is the first free one in cyclic order after the counter (wrap MAX -> 1, in-use ids skipped). Connection level: in every history of fewer than 2^31-1 events the k-th operation started carries id k. *)
+(* C05 - in-flight operations never share a message id; ids stay within 1..2^31-1. Pinned statements only. Allocator: for EVERY counter position and in-use set (not full), next_msgid returns an id in 1..MAX that is not in use and is the first free one in cyclic order after the counter (wrap MAX -> 1, in-use ids skipped). Connection level: in every history of fewer than 2^31-1 events the k-th operation started carries id k. Callers on several threads: taking the id (Alloc) and handing the request to the driver (Enqueue) are separate events - Start is exactly one followed at once by the other - so the histories quantified over include every interleaving in which other handles allocate AND send in between; an allocated, not yet sent operation is touched by nothing but its own Enqueue. *)
 From RecordUpdate Require Import RecordUpdate.
 From Coq Require Import List ZArith NArith Lia Bool Arith.
 From Coq.Strings Require Import Byte.
-From L3 Require Import Msgid Conn ConnProofs ConnNoWrap.
+From L3 Require Import Msgid Conn ConnProofs ConnAlloc ConnNoWrap.
 Import ListNotations.
 
 Theorem c05_next_is_first_free : forall (last : Z) (s : list Z), 0 <= last <= MAX -> Z.of_nat (length s) < MAX - 1 -> exists d : nat, next_msgid last s = Found (cand last (Z.of_nat (S d))) /\ 1 <= cand last (Z.of_nat (S d)) <= MAX /\ ~ In (cand last (Z.of_nat (S d))) s /\ (forall i : Z, 0 < i < Z.of_nat (S d) -> In (cand last i) s).
@@ -14,6 +14,26 @@ Proof. exact ConnNoWrap.c05_ids_in_order. Qed.
 Theorem c05_wrap_example : next_msgid (MAX - 1) [MAX; 1; 2] = Found 3.
 Proof. exact Msgid.c05_probe_wrap. Qed.
 
+Theorem c05_distinct_ids : forall (f : fixes) (evs : list ev), Z.of_nat (length evs) < MAX -> NoDup (map o_mid (ops (run f evs))).
+Proof. exact ConnNoWrap.c05_distinct_ids. Qed.
+
+Theorem c05_start_is_alloc_then_enqueue : forall (s : st) (k : kind) (tmo : option Z), step s (Start k tmo) = step (step s (Alloc k tmo)) (Enqueue (length (ops s))).
+Proof. exact Conn.start_split. Qed.
+
+Theorem c05_allocated_is_inert : forall (f : fixes) (evs : list ev) (o : nat) (c : cop), getop (run f evs) o = Some c -> o_status c = CAlloc -> inert c.
+Proof. exact ConnAlloc.reachable_alloc_inert. Qed.
+
+Theorem c05_held_operation_untouched : forall (s : st) (e : ev) (o : nat) (c : cop), getop s o = Some c -> inert c -> e <> Enqueue o -> getop (step s e) o = Some c.
+Proof. exact ConnAlloc.alloc_untouched. Qed.
+
+Theorem c05_crossed_starts : let r1 := mkResp 1 RDone 11 in let r2 := mkResp 2 RDone 22 in let s := run as_is [Alloc KSingle None; Alloc KSingle None; Enqueue 1; Enqueue 0; DrvOp; DrvOp; ServerSend r1; ServerSend r2; DrvResp; DrvResp; CliPoll 0; CliPoll 1] in map fst (wout s) = [2; 1] /\ option_map o_status (getop s 0%nat) = Some (COk (Some r1)) /\ option_map o_status (getop s 1%nat) = Some (COk (Some r2)) /\ inuse s = [].
+Proof. exact ConnAlloc.crossed_starts. Qed.
+
 Print Assumptions c05_next_is_first_free.
 Print Assumptions c05_ids_in_order.
 Print Assumptions c05_wrap_example.
+Print Assumptions c05_distinct_ids.
+Print Assumptions c05_start_is_alloc_then_enqueue.
+Print Assumptions c05_allocated_is_inert.
+Print Assumptions c05_held_operation_untouched.
+Print Assumptions c05_crossed_starts.
